@@ -16,7 +16,7 @@ from checks import sched_common as sc
 
 KIND = {  # kind -> (class/driver, count, capacity request)
     "net": ("net", 1, 0), "net2": ("net", 2, 0), "shm2": ("shm", 1, 2), "shm3": ("shm", 1, 3), "gpu": ("gpu", 1, 0), "tshm": ("tshm", 1, 3),
-    "gpu2": ("gpu", 2, 0), "shm": ("shm", 1, 0),
+    "gpu2": ("gpu", 2, 0), "shm": ("shm", 1, 0), "gpuall": ("gpu", 0, 0), "netall": ("net", 0, 0),
 }
 
 
@@ -34,10 +34,10 @@ def pool(name="p0", weight=0, reqs=()):
             "limits": {"cpu": 0, "mem": 0, "nodes": -1}, "types": []}
 
 
-def claim(name, kind, alloc=(), reserved=(), zone=""):
+def claim(name, kind, alloc=(), reserved=(), zone="", others=0):
     cls, count, cap = KIND[kind]
-    return {"name": name, "ns": "default", "class": cls, "count": count, "all": False, "capReq": cap, "alloc": list(alloc),
-            "allocZone": zone, "reserved": list(reserved)}
+    return {"name": name, "ns": "default", "class": cls, "count": count, "all": kind.endswith("all"), "capReq": cap, "alloc": list(alloc),
+            "allocZone": zone, "reserved": list(reserved), "others": others}
 
 
 def classes(drivers):
@@ -129,12 +129,34 @@ def explore_dra(rng, name="d"):
             pods.append(bp)
             claims.append(claim("pc-node", "gpu", [{"driver": "gpu", "pool": "n0-g", "device": "g0", "consumed": 0}], ["b0"]))
             pcl.append({"pod": "default/b0", "claims": ["pc-node"]})
-    # pre-allocated in-cluster devices
-    if nnet and rng.random() < 0.3:
+    # an in-cluster pool with the SAME driver / pool / device names as the templates (ids collide, only the template flag differs)
+    if rng.random() < 0.15:
+        slices.append({"name": "s-gpu", "driver": "gpu", "pool": "g", "access": "all", "zone": "", "node": "", "devices": [dev("g0")], "slots": 0})
+    # a node that is being removed: its pod is rescheduled in this pass and takes its claim (and the published device it holds) along
+    if nnet and rng.random() < 0.2:
+        t = types[0]
+        nodes.append({"name": "nd", "stage": "initialized", "pool": "p0", "labels": {"zone": t["offerings"][0]["zone"], "ct": "od", "it": t["name"], "arch": "amd64", "os": "linux", "pool": "p0"},
+                      "taints": [], "startup": [], "ephemeral": False, "alloc": {"cpu": t["cpu"], "mem": t["mem"], "pods": 110},
+                      "cap": {"cpu": t["cpu"], "mem": t["mem"], "pods": 110}, "marked": True, "deleting": False, "csi": []})
+        bp = sc.plain_pod("bd", 300, 128)
+        bp["node"], bp["owner"], bp["tol"] = "nd", "rs", [dict(sc.TOL_ALL)]
+        pods.append(bp)
+        mig = ["pc-mig"]
+        # (sometimes a non-pod consumer holds the claim as well: then it does not migrate)
+        claims.append(claim("pc-mig", "net", [{"driver": "net", "pool": "np", "device": "n%d" % (nnet - 1), "consumed": 0}], ["bd"],
+                            others=1 if rng.random() < 0.3 else 0))
+        if shared and rng.random() < 0.6:   # ... and a share of the shared device
+            claims.append(claim("pc-mig-shm", "shm2", [{"driver": "shm", "pool": "sp", "device": "m0", "consumed": 2}], ["bd"]))
+            mig.append("pc-mig-shm")
+        pcl.append({"pod": "default/bd", "claims": mig})
+    # pre-allocated in-cluster devices (an exclusive device is held by at most one claim)
+    if nnet and rng.random() < 0.3 and not (nnet == 1 and any(c["name"] == "pc-mig" for c in claims)):
         claims.append(claim("pc-net", "net", [{"driver": "net", "pool": "np", "device": "n0", "consumed": 0}]))
     if shared and rng.random() < 0.3:
         claims.append(claim("pc-shm", "shm2", [{"driver": "shm", "pool": "sp", "device": "m0", "consumed": rng.choice([2, 3])}]))
     kinds = ["gpu", "gpu", "gpu2"] + (["net", "net", "net2"] if nnet else []) + (["shm2", "shm3", "shm3", "shm"] if shared else []) + ["tshm"]
+    if rng.random() < 0.12:
+        kinds += ["gpuall"] + (["netall"] if nnet else [])
     small = min(cpus)
     sizes = [small // 5, small // 3, small // 2 - 50, small - 200, small + 200]
     npods = rng.choice([2, 3, 3, 4, 5, 6, 7])
